@@ -72,7 +72,11 @@ func c37eq(a, b []byte) bool {
 
 // c37env is the model world: who is the container owner, what the primitives
 // answer, and what was sent to the chain.
+// c37anyState lets the C35 harness run the same requests in non-alphabet state.
+var c37anyState bool
+
 type c37env struct {
+	alpha bool
 	cp    *Processor
 	calls []client.VerifCall
 	net   *c37net
@@ -171,7 +175,10 @@ func c37setup() *c37env {
 		MetaEnabled:     vrt.Bool("metaEnabled"),
 		AllowEC:         vrt.Bool("ecAllowed"),
 	})
-	vrt.Assume(alpha) // the membership guard itself is C35's subject
+	e.alpha = alpha
+	if !c37anyState {
+		vrt.Assume(alpha) // the membership guard itself is C35's subject
+	}
 	return e
 }
 
